@@ -60,6 +60,7 @@ func Gen(full bool) func(p *simrt.Tape) any {
 		sort.Ints(pl.Ours)
 		epoch := slot * time.Duration(pl.SlotsPerEpoch)
 		// start anywhere in epochs 1..2 (sometimes before genesis, at genesis, or exactly on a boundary)
+		prepStart := false
 		switch p.Pick(8) {
 		case 0:
 			pl.StartOffset = -slot
@@ -69,6 +70,15 @@ func Gen(full bool) func(p *simrt.Tape) any {
 			pl.StartOffset = epoch
 		case 3:
 			pl.StartOffset = 2*epoch - time.Second
+		case 4:
+			if p.Pct(40) {
+				// inside the one epoch that is exactly the preparation lead (5 epochs) before a sync period boundary:
+				// only the start-up path can ask for the next period's duties; run across the boundary
+				pl.StartOffset = (time.Duration(pl.EpochsPerPeriod)-5)*epoch + time.Duration(p.Intn(int(epoch/time.Millisecond)))*time.Millisecond
+				prepStart = true
+			} else {
+				pl.StartOffset = epoch + time.Duration(p.Intn(int(epoch/time.Millisecond)))*time.Millisecond
+			}
 		default:
 			pl.StartOffset = epoch + time.Duration(p.Intn(int(epoch/time.Millisecond)))*time.Millisecond
 		}
@@ -77,6 +87,9 @@ func Gen(full bool) func(p *simrt.Tape) any {
 			startSlot = uint64(pl.StartOffset / slot)
 		}
 		pl.HorizonSlots = startSlot + pl.SlotsPerEpoch*uint64(p.Range(2, 3)) + uint64(p.Intn(int(pl.SlotsPerEpoch)))
+		if prepStart {
+			pl.HorizonSlots = pl.EpochsPerPeriod*pl.SlotsPerEpoch + uint64(p.Range(1, 3))
+		}
 		lat := []int{400, 700, 1000, 1500, int(slot/time.Millisecond) / 3, int(slot/time.Millisecond)/3 + 1, int(slot/time.Millisecond) / 2}
 		for i := 0; i < 6; i++ {
 			pl.HeadLatencyMs = append(pl.HeadLatencyMs, lat[p.Pick(len(lat))])
@@ -126,6 +139,7 @@ func Gen(full bool) func(p *simrt.Tape) any {
 		// slow duty requests overlapping reorgs: an answer that was under way when the roots changed
 		if p.Pct(25) {
 			pl.AnswerAtRequest = p.Bool()
+			pl.ProposeTakes = []time.Duration{0, slot / 4, slot / 2, slot - time.Second}[p.Pick(4)]
 			pl.Faults = map[string][]Outcome{}
 			for _, meth := range []string{"AttesterDuties", "ProposerDuties", "SyncCommitteeDuties"} {
 				var l []Outcome
@@ -546,6 +560,35 @@ func Oracle(rec *syssim.Record, out *sim.Outcome) *simrt.Violation {
 		for _, f := range fetches {
 			if f.Kind == "sync" {
 				periods[f.Epoch/pl.EpochsPerPeriod] = f // last started
+			}
+		}
+		// a sync committee period whose window the incarnation lives through has been asked about at all
+		// (what is owed below derives from what vouch obtained, so a period it never asks about would owe nothing)
+		periodSlots := pl.EpochsPerPeriod * pl.SlotsPerEpoch
+		for period := uint64(0); period*periodSlots <= pl.HorizonSlots+1; period++ {
+			if _, asked := periods[period]; asked {
+				continue
+			}
+			member := -1
+			for _, v := range rec.Model.SortedOurs() {
+				if _, in := rec.Model.SyncTable(period * pl.EpochsPerPeriod)[v]; in && !(pl.HideSync && pl.HideSyncAccount == v) {
+					member = v
+					break
+				}
+			}
+			if member < 0 {
+				continue
+			}
+			lo := uint64(0)
+			if period > 0 {
+				lo = period*periodSlots - 1
+			}
+			for s := lo; s+2 <= (period+1)*periodSlots; s++ {
+				jobT := slotStart(s) + pl.MaxSyncMessageDelay
+				if slotStart(s) < inc.Start+slotDur || jobT+2*time.Second > endOfRun || !alive(inc, jobT+2*time.Second) {
+					continue
+				}
+				return Viol("C03/sync-period-never-requested", "incarnation %d (alive from %v) never asked for the sync committee duties of period %d, of which validator %d is a member; slot %d of its window passed", inc.N, inc.Start, period, member, s)
 			}
 		}
 		for period, last := range periods {
